@@ -68,8 +68,19 @@ type IndexedState struct {
 	remHook RemHookFn
 }
 
-func (s *IndexedState) withPrivilege(ctx *Context) {
-	ctx.grantPrivilege("hook")
+// withPrivilege returns a copy of the given context that may
+// re-enter this state while the caller holds the state lock (see
+// slock).  Hooks get that copy.
+//
+// The privilege must not be granted to ctx itself: a context can be
+// used by several goroutines at the same time (the actions of one
+// event, the jobs of the scheduled rules loaded with one context), and
+// every one of them would then skip slock or sunlock for as long as
+// the hook runs.
+func (s *IndexedState) withPrivilege(ctx *Context) *Context {
+	sub := ctx.SubContext()
+	sub.grantPrivilege("hook")
+	return sub
 }
 
 func (s *IndexedState) withoutPrivilege(ctx *Context) {
@@ -330,9 +341,9 @@ func (s *IndexedState) add(ctx *Context, id string, x Map) (string, error) {
 
 	// Try the hook first?
 	if s.addHook != nil {
-		s.withPrivilege(ctx)
-		defer s.withoutPrivilege(ctx)
-		err := s.addHook(ctx, s, id, fact, ctx.GetLoc().loading)
+		hctx := s.withPrivilege(ctx)
+		err := s.addHook(hctx, s, id, fact, ctx.GetLoc().loading)
+		s.withoutPrivilege(hctx)
 		if err != nil {
 			Log(ERROR, ctx, "IndexedState.add", "state", s.Name, "error", err,
 				"when", "addHook")
@@ -413,9 +424,9 @@ func (s *IndexedState) Rem(ctx *Context, id string) (bool, error) {
 	defer s.sunlock(ctx, false)
 	if s.remHook != nil {
 		// Consider the lock.
-		s.withPrivilege(ctx)
-		defer s.withoutPrivilege(ctx)
-		err := s.remHook(ctx, s, id)
+		hctx := s.withPrivilege(ctx)
+		err := s.remHook(hctx, s, id)
+		s.withoutPrivilege(hctx)
 		if err != nil {
 			Log(ERROR, ctx, "IndexedState.Rem", "state", s.Name, "error", err,
 				"id", id, "when", "remHook")
@@ -502,10 +513,10 @@ func (s *IndexedState) remHooks(ctx *Context) error {
 		// Try to run the remHook for every fact.
 		//
 		// Consider the lock.
-		s.withPrivilege(ctx)
-		defer s.withoutPrivilege(ctx)
+		hctx := s.withPrivilege(ctx)
+		defer s.withoutPrivilege(hctx)
 		for id := range s.IdToFact {
-			err := s.remHook(ctx, s, id)
+			err := s.remHook(hctx, s, id)
 			if err != nil {
 				Log(ERROR, ctx, "IndexedState.Clear", "state", s.Name, "error", err,
 					"id", id, "when", "remHook")
